@@ -250,4 +250,95 @@ theorem rv_roundtrip : ∀ (n : Nat) (l : List UInt8) (pc : BitVec 32), l.length
         · rw [if_neg hA]
           exact skip2 (fun c2 c3 c4 c5 c6 c7 r' => by rw [rvDecGo_eq, if_neg hJ, if_neg hA])
 
+/-! ### chunk stability -/
+
+/-- the right-hand side of the chunk law for a stateless `*_code` loop -/
+def chunked (G : BitVec 32 → List UInt8 → List UInt8 × Nat) (pc : BitVec 32) (a b : List UInt8) : List UInt8 × Nat :=
+  ((G pc a).1.take (G pc a).2 ++ (G (pc + BitVec.ofNat 32 (G pc a).2) ((G pc a).1.drop (G pc a).2 ++ b)).1,
+   (G pc a).2 + (G (pc + BitVec.ofNat 32 (G pc a).2) ((G pc a).1.drop (G pc a).2 ++ b)).2)
+
+theorem chunked_short (G : BitVec 32 → List UInt8 → List UInt8 × Nat) (pc : BitVec 32) (a b : List UInt8) (h : G pc a = (a, 0)) :
+    chunked G pc a b = G pc (a ++ b) := by
+  unfold chunked
+  rw [h]
+  simp
+
+theorem chunked_step (G : BitVec 32 → List UInt8 → List UInt8 × Nat) (pc : BitVec 32) (k : Nat) (pre a' a b : List UInt8)
+    (h : G pc a = (pre ++ (G (pc + BitVec.ofNat 32 k) a').1, (G (pc + BitVec.ofNat 32 k) a').2 + k)) (hk : pre.length = k) :
+    chunked G pc a b = (pre ++ (chunked G (pc + BitVec.ofNat 32 k) a' b).1, (chunked G (pc + BitVec.ofNat 32 k) a' b).2 + k) := by
+  unfold chunked
+  rw [h]
+  simp only
+  have e1 : pc + BitVec.ofNat 32 ((G (pc + BitVec.ofNat 32 k) a').2 + k)
+      = pc + BitVec.ofNat 32 k + BitVec.ofNat 32 (G (pc + BitVec.ofNat 32 k) a').2 := by
+    rw [BitVec.ofNat_add, BitVec.add_assoc, BitVec.add_comm (BitVec.ofNat 32 _)]
+  rw [e1]
+  have t1 : ∀ (m : Nat) (r : List UInt8), (pre ++ r).take (m + k) = pre ++ r.take m := by
+    intro m r; rw [List.take_append, hk]; simp [List.take_of_length_le (by omega : pre.length ≤ m + k)]
+  have d1 : ∀ (m : Nat) (r : List UInt8), (pre ++ r).drop (m + k) = r.drop m := by
+    intro m r; rw [List.drop_append, hk]; simp [List.drop_of_length_le (by omega : pre.length ≤ m + k)]
+  rw [t1, d1, List.append_assoc]
+  congr 1
+  omega
+
+theorem rvEncGo_chunk : ∀ (n : Nat) (a b : List UInt8) (pc : BitVec 32), a.length ≤ n → rvEncGo pc (a ++ b) = chunked rvEncGo pc a b := by
+  intro n
+  induction n with
+  | zero => intro a b pc h; exact (chunked_short rvEncGo pc a b (rvEncGo_short pc a (by omega))).symm
+  | succ k ih =>
+    intro a b pc h
+    match a with
+    | [] | [_] | [_, _] | [_, _, _] | [_, _, _, _] | [_, _, _, _, _] | [_, _, _, _, _, _] | [_, _, _, _, _, _, _] =>
+      exact (chunked_short rvEncGo pc _ b (rvEncGo_short pc _ (by simp))).symm
+    | b0 :: b1 :: b2 :: b3 :: b4 :: b5 :: b6 :: b7 :: rest =>
+      simp only [List.length_cons] at h
+      have l2 : (b2 :: b3 :: b4 :: b5 :: b6 :: b7 :: rest).length ≤ k := by simp only [List.length_cons]; omega
+      have l4 : (b4 :: b5 :: b6 :: b7 :: rest).length ≤ k := by simp only [List.length_cons]; omega
+      have l6 : (b6 :: b7 :: rest).length ≤ k := by simp only [List.length_cons]; omega
+      have l8 : rest.length ≤ k := by omega
+      simp only [List.cons_append]
+      by_cases hJ : (b0 == 0xEF) = true
+      · by_cases hS : (u32 b1 &&& 0x0D#32 != 0#32) = true
+        · rw [chunked_step rvEncGo pc 2 [b0, b1] (b2 :: b3 :: b4 :: b5 :: b6 :: b7 :: rest) _ b (by rw [rvEncGo_eq, if_pos hJ, if_pos hS]; rfl) rfl, rvEncGo_eq, if_pos hJ, if_pos hS, ← ih _ b _ l2]; rfl
+        · rw [chunked_step rvEncGo pc 4 [b0, (rvJalEnc pc b1 b2 b3).1, (rvJalEnc pc b1 b2 b3).2.1, (rvJalEnc pc b1 b2 b3).2.2] (b4 :: b5 :: b6 :: b7 :: rest) _ b (by rw [rvEncGo_eq, if_pos hJ, if_neg hS]; rfl) rfl, rvEncGo_eq, if_pos hJ, if_neg hS, ← ih _ b _ l4]; rfl
+      · by_cases hA : (u32 b0 &&& 0x7F#32 == 0x17#32) = true
+        · by_cases hE : (le32 b0 b1 b2 b3 &&& 0xE80#32 != 0#32) = true
+          · by_cases hP : notAuipcPair (le32 b0 b1 b2 b3) (le32 b4 b5 b6 b7) = true
+            · rw [chunked_step rvEncGo pc 6 [b0, b1, b2, b3, b4, b5] (b6 :: b7 :: rest) _ b (by rw [rvEncGo_eq, if_neg hJ, if_pos hA, if_pos hE, if_pos hP]; rfl) rfl, rvEncGo_eq, if_neg hJ, if_pos hA, if_pos hE, if_pos hP, ← ih _ b _ l6]; rfl
+            · rw [chunked_step rvEncGo pc 8 (rvPairEnc pc (le32 b0 b1 b2 b3) (le32 b4 b5 b6 b7)) rest _ b (by rw [rvEncGo_eq, if_neg hJ, if_pos hA, if_pos hE, if_neg hP]) rfl, rvEncGo_eq, if_neg hJ, if_pos hA, if_pos hE, if_neg hP, ← ih _ b _ l8]
+          · by_cases hS : notSpecialAuipc (le32 b0 b1 b2 b3) (le32 b0 b1 b2 b3 >>> 27) = true
+            · rw [chunked_step rvEncGo pc 4 [b0, b1, b2, b3] (b4 :: b5 :: b6 :: b7 :: rest) _ b (by rw [rvEncGo_eq, if_neg hJ, if_pos hA, if_neg hE, if_pos hS]; rfl) rfl, rvEncGo_eq, if_neg hJ, if_pos hA, if_neg hE, if_pos hS, ← ih _ b _ l4]; rfl
+            · rw [chunked_step rvEncGo pc 8 (rvSpecialEnc (le32 b0 b1 b2 b3) (le32 b4 b5 b6 b7)) rest _ b (by rw [rvEncGo_eq, if_neg hJ, if_pos hA, if_neg hE, if_neg hS]) rfl, rvEncGo_eq, if_neg hJ, if_pos hA, if_neg hE, if_neg hS, ← ih _ b _ l8]
+        · rw [chunked_step rvEncGo pc 2 [b0, b1] (b2 :: b3 :: b4 :: b5 :: b6 :: b7 :: rest) _ b (by rw [rvEncGo_eq, if_neg hJ, if_neg hA]; rfl) rfl, rvEncGo_eq, if_neg hJ, if_neg hA, ← ih _ b _ l2]; rfl
+
+theorem rvDecGo_chunk : ∀ (n : Nat) (a b : List UInt8) (pc : BitVec 32), a.length ≤ n → rvDecGo pc (a ++ b) = chunked rvDecGo pc a b := by
+  intro n
+  induction n with
+  | zero => intro a b pc h; exact (chunked_short rvDecGo pc a b (rvDecGo_short pc a (by omega))).symm
+  | succ k ih =>
+    intro a b pc h
+    match a with
+    | [] | [_] | [_, _] | [_, _, _] | [_, _, _, _] | [_, _, _, _, _] | [_, _, _, _, _, _] | [_, _, _, _, _, _, _] =>
+      exact (chunked_short rvDecGo pc _ b (rvDecGo_short pc _ (by simp))).symm
+    | b0 :: b1 :: b2 :: b3 :: b4 :: b5 :: b6 :: b7 :: rest =>
+      simp only [List.length_cons] at h
+      have l2 : (b2 :: b3 :: b4 :: b5 :: b6 :: b7 :: rest).length ≤ k := by simp only [List.length_cons]; omega
+      have l4 : (b4 :: b5 :: b6 :: b7 :: rest).length ≤ k := by simp only [List.length_cons]; omega
+      have l6 : (b6 :: b7 :: rest).length ≤ k := by simp only [List.length_cons]; omega
+      have l8 : rest.length ≤ k := by omega
+      simp only [List.cons_append]
+      by_cases hJ : (b0 == 0xEF) = true
+      · by_cases hS : (u32 b1 &&& 0x0D#32 != 0#32) = true
+        · rw [chunked_step rvDecGo pc 2 [b0, b1] (b2 :: b3 :: b4 :: b5 :: b6 :: b7 :: rest) _ b (by rw [rvDecGo_eq, if_pos hJ, if_pos hS]; rfl) rfl, rvDecGo_eq, if_pos hJ, if_pos hS, ← ih _ b _ l2]; rfl
+        · rw [chunked_step rvDecGo pc 4 [b0, (rvJalDec pc b1 b2 b3).1, (rvJalDec pc b1 b2 b3).2.1, (rvJalDec pc b1 b2 b3).2.2] (b4 :: b5 :: b6 :: b7 :: rest) _ b (by rw [rvDecGo_eq, if_pos hJ, if_neg hS]; rfl) rfl, rvDecGo_eq, if_pos hJ, if_neg hS, ← ih _ b _ l4]; rfl
+      · by_cases hA : (u32 b0 &&& 0x7F#32 == 0x17#32) = true
+        · by_cases hE : (le32 b0 b1 b2 b3 &&& 0xE80#32 != 0#32) = true
+          · by_cases hP : notAuipcPair (le32 b0 b1 b2 b3) (le32 b4 b5 b6 b7) = true
+            · rw [chunked_step rvDecGo pc 6 [b0, b1, b2, b3, b4, b5] (b6 :: b7 :: rest) _ b (by rw [rvDecGo_eq, if_neg hJ, if_pos hA, if_pos hE, if_pos hP]; rfl) rfl, rvDecGo_eq, if_neg hJ, if_pos hA, if_pos hE, if_pos hP, ← ih _ b _ l6]; rfl
+            · rw [chunked_step rvDecGo pc 8 (rvPairDec (le32 b0 b1 b2 b3) (le32 b4 b5 b6 b7)) rest _ b (by rw [rvDecGo_eq, if_neg hJ, if_pos hA, if_pos hE, if_neg hP]) rfl, rvDecGo_eq, if_neg hJ, if_pos hA, if_pos hE, if_neg hP, ← ih _ b _ l8]
+          · by_cases hS : notSpecialAuipc (le32 b0 b1 b2 b3) (le32 b0 b1 b2 b3 >>> 27) = true
+            · rw [chunked_step rvDecGo pc 4 [b0, b1, b2, b3] (b4 :: b5 :: b6 :: b7 :: rest) _ b (by rw [rvDecGo_eq, if_neg hJ, if_pos hA, if_neg hE, if_pos hS]; rfl) rfl, rvDecGo_eq, if_neg hJ, if_pos hA, if_neg hE, if_pos hS, ← ih _ b _ l4]; rfl
+            · rw [chunked_step rvDecGo pc 8 (rvSpecialDec pc (le32 b0 b1 b2 b3) (be32 b4 b5 b6 b7)) rest _ b (by rw [rvDecGo_eq, if_neg hJ, if_pos hA, if_neg hE, if_neg hS]) rfl, rvDecGo_eq, if_neg hJ, if_pos hA, if_neg hE, if_neg hS, ← ih _ b _ l8]
+        · rw [chunked_step rvDecGo pc 2 [b0, b1] (b2 :: b3 :: b4 :: b5 :: b6 :: b7 :: rest) _ b (by rw [rvDecGo_eq, if_neg hJ, if_neg hA]; rfl) rfl, rvDecGo_eq, if_neg hJ, if_neg hA, ← ih _ b _ l2]; rfl
+
 end XzVerif.Bcj
